@@ -55,9 +55,9 @@ theorem keysIn_afterDel (scfg : SpecCfg) (q : Req) (o : Obs) (live : List (Bytes
   · exact h
 
 /-- an accepted step keeps "live ⊆ issued" -/
-theorem specReq_liveIssued (scfg : SpecCfg) (s : SpecSt) (q : Req) (o : Obs) (s' : SpecSt)
-    (h : specReq scfg s q o = .ok s') (hl : LiveIssued s) : LiveIssued s' := by
-  unfold specReq at h
+theorem specReqCore_liveIssued (scfg : SpecCfg) (s : SpecSt) (q : Req) (o : Obs) (s' : SpecSt)
+    (h : specReqCore scfg s q o = .ok s') (hl : LiveIssued s) : LiveIssued s' := by
+  unfold specReqCore at h
   simp only at h
   have hP : KeysIn s.live (· ∈ s.issued ++ o.gens) :=
     keysIn_mono _ _ _ hl (fun k hk => List.mem_append_left _ hk)
@@ -103,9 +103,9 @@ theorem specReq_liveIssued (scfg : SpecCfg) (s : SpecSt) (q : Req) (o : Obs) (s'
 
 /-! ## reading an accepted step -/
 
-theorem specReq_issued (scfg : SpecCfg) (s : SpecSt) (q : Req) (o : Obs) (s' : SpecSt)
-    (h : specReq scfg s q o = .ok s') : s'.issued = s.issued ++ o.gens ∧ s'.now = s.now := by
-  unfold specReq at h
+theorem specReqCore_issued (scfg : SpecCfg) (s : SpecSt) (q : Req) (o : Obs) (s' : SpecSt)
+    (h : specReqCore scfg s q o = .ok s') : s'.issued = s.issued ++ o.gens ∧ s'.now = s.now := by
+  unfold specReqCore at h
   simp only at h
   repeat' split at h
   all_goals try (cases h; done)
@@ -125,12 +125,12 @@ theorem accepted_spec (scfg : SpecCfg) (s : SpecSt) (q : Req) (t : Bytes)
     handler, the origin clause holds, and the token that let it through was presented through the
     configured extractor, equals the cookie, is live and was issued; with a session back-end it was
     handed to the session whose cookie the request carries -/
-theorem specReq_ok_unsafe_pass (scfg : SpecCfg) (s : SpecSt) (q : Req) (o : Obs) (s' : SpecSt)
-    (h : specReq scfg s q o = .ok s') (hu : isSafe q.method = false) (hp : o.pass = true) :
+theorem specReqCore_ok_unsafe_pass (scfg : SpecCfg) (s : SpecSt) (q : Req) (o : Obs) (s' : SpecSt)
+    (h : specReqCore scfg s q o = .ok s') (hu : isSafe q.method = false) (hp : o.pass = true) :
     o.early = false ∧ originClause scfg q = true ∧
     ∃ t, t ∈ presented scfg.ext q ∧ t ≠ [] ∧ t = q.ck ∧ s.liveAt t = true ∧ t ∈ s.issued ++ o.gens ∧
       (scfg.sessionBacked = true → heldBy s t q.sc = true) := by
-  unfold specReq at h
+  unfold specReqCore at h
   simp only at h
   split at h
   · cases h
@@ -157,13 +157,13 @@ theorem specReq_ok_unsafe_pass (scfg : SpecCfg) (s : SpecSt) (q : Req) (o : Obs)
 /-- an accepted step for a safe request: the handler ran, and unless the handler itself deleted the
     token the reply carries an issued, non-empty token — the presented one if it was live, else a
     fresh one — which, no storage fault provided, the store holds for a full idle period -/
-theorem specReq_ok_safe (scfg : SpecCfg) (s : SpecSt) (q : Req) (o : Obs) (s' : SpecSt)
-    (h : specReq scfg s q o = .ok s') (hs : isSafe q.method = true) :
+theorem specReqCore_ok_safe (scfg : SpecCfg) (s : SpecSt) (q : Req) (o : Obs) (s' : SpecSt)
+    (h : specReqCore scfg s q o = .ok s') (hs : isSafe q.method = true) :
     o.pass = true ∧
     (q.del = false → ∃ t, o.ck = some t ∧ t ≠ [] ∧ t ∈ s.issued ++ o.gens ∧
       ((t = q.ck ∧ s.liveAt t = true) ∨ t ∈ o.gens) ∧
       (o.fired = false → probeHas o t (s.now + scfg.idle) = true)) := by
-  unfold specReq at h
+  unfold specReqCore at h
   simp only at h
   split at h
   · cases h
@@ -207,5 +207,72 @@ theorem specReq_ok_safe (scfg : SpecCfg) (s : SpecSt) (q : Req) (o : Obs) (s' : 
                   · intro hf
                     simp only [hf, Bool.not_false, Bool.true_and, Bool.not_eq_true', Bool.not_eq_false] at hprobe
                     exact hprobe
+
+
+/-! ## the full step: `Next`, the attribute clause, then the core -/
+
+theorem specReq_core (scfg : SpecCfg) (s : SpecSt) (q : Req) (o : Obs) (hs : skippedS scfg q = false)
+    (s' : SpecSt) (h : specReq scfg s q o = .ok s') :
+    attrsClause scfg s.now o = true ∧ specReqCore scfg s q o = .ok s' := by
+  unfold specReq at h
+  simp only [hs, Bool.false_eq_true, if_false] at h
+  split at h
+  · cases h
+  · rename_i ha
+    split at h
+    · cases h
+    · exact ⟨by simpa using ha, h⟩
+
+theorem specReq_skip (scfg : SpecCfg) (s : SpecSt) (q : Req) (o : Obs) (hs : skippedS scfg q = true)
+    (s' : SpecSt) (h : specReq scfg s q o = .ok s') :
+    s' = s ∧ o.pass = true ∧ o.ck = none ∧ o.gens = [] ∧ probeSound s o = true := by
+  unfold specReq at h
+  simp only [hs, if_true] at h
+  unfold specSkip at h
+  split at h
+  · cases h
+  · rename_i h1
+    split at h
+    · cases h
+    · rename_i h2
+      simp only [Except.ok.injEq] at h
+      simp only [Bool.or_eq_true, Bool.not_eq_true', not_or, Bool.not_eq_true, Bool.not_eq_false',
+        Option.isSome_eq_false_iff, Option.isNone_iff_eq_none, List.isEmpty_iff, Bool.not_eq_false] at h1
+      refine ⟨h.symm, by simpa using h1.1.1, h1.1.2, h1.2, by simpa using h2⟩
+
+/-- an accepted step keeps "live ⊆ issued" -/
+theorem specReq_liveIssued (scfg : SpecCfg) (s : SpecSt) (q : Req) (o : Obs) (s' : SpecSt)
+    (h : specReq scfg s q o = .ok s') (hl : LiveIssued s) : LiveIssued s' := by
+  cases hs : skippedS scfg q
+  · exact specReqCore_liveIssued scfg s q o s' (specReq_core scfg s q o hs s' h).2 hl
+  · rw [(specReq_skip scfg s q o hs s' h).1]; exact hl
+
+theorem specReq_issued (scfg : SpecCfg) (s : SpecSt) (q : Req) (o : Obs) (s' : SpecSt)
+    (h : specReq scfg s q o = .ok s') : s'.issued = s.issued ++ o.gens ∧ s'.now = s.now := by
+  cases hs : skippedS scfg q
+  · exact specReqCore_issued scfg s q o s' (specReq_core scfg s q o hs s' h).2
+  · obtain ⟨e, _, _, hg, _⟩ := specReq_skip scfg s q o hs s' h
+    rw [e, hg]; simp
+
+theorem specReq_ok_unsafe_pass (scfg : SpecCfg) (s : SpecSt) (q : Req) (o : Obs) (s' : SpecSt)
+    (h : specReq scfg s q o = .ok s') (hns : skippedS scfg q = false)
+    (hu : isSafe q.method = false) (hp : o.pass = true) :
+    o.early = false ∧ originClause scfg q = true ∧
+    ∃ t, t ∈ presented scfg.ext q ∧ t ≠ [] ∧ t = q.ck ∧ s.liveAt t = true ∧ t ∈ s.issued ++ o.gens ∧
+      (scfg.sessionBacked = true → heldBy s t q.sc = true) :=
+  specReqCore_ok_unsafe_pass scfg s q o s' (specReq_core scfg s q o hns s' h).2 hu hp
+
+theorem specReq_ok_safe (scfg : SpecCfg) (s : SpecSt) (q : Req) (o : Obs) (s' : SpecSt)
+    (h : specReq scfg s q o = .ok s') (hns : skippedS scfg q = false) (hs : isSafe q.method = true) :
+    o.pass = true ∧
+    (q.del = false → ∃ t, o.ck = some t ∧ t ≠ [] ∧ t ∈ s.issued ++ o.gens ∧
+      ((t = q.ck ∧ s.liveAt t = true) ∨ t ∈ o.gens) ∧
+      (o.fired = false → probeHas o t (s.now + scfg.idle) = true)) :=
+  specReqCore_ok_safe scfg s q o s' (specReq_core scfg s q o hns s' h).2 hs
+
+/-- the clauses of the core step do not read `Next` nor the cookie fields -/
+theorem specReqCore_front (scfg : SpecCfg) (n : Option (Req → Bool)) (cc : CookieCfg) (eh : Err → Nat)
+    (s : SpecSt) (q : Req) (o : Obs) :
+    specReqCore { scfg with next := n, cookie := cc, eh := eh } s q o = specReqCore scfg s q o := rfl
 
 end C16
